@@ -253,8 +253,10 @@ class Oracles:
                     if int(n) in before["raw"] and not _eq(_plain(g.nodes[n].get(k)), before["raw"][int(n)][k]):
                         self.v("C10", "`%s` changed the disabled feature %s of node %d: %s -> %s" % (line, k, n, before["raw"][int(n)][k], g.nodes[n].get(k)), line)
         if "iou" in avail and "iou" not in before["act"] and "iou" not in act:
+            toks = line.split()
+            named = (int(toks[1]), int(toks[2])) if kind == "add_edge" else None  # a forced re-add deletes and re-creates it
             for u, w in g.edges:
-                if (int(u), int(w)) in before["rawe"] and not _eq(_plain(g.edges[u, w].get("iou")), before["rawe"][(int(u), int(w))]):
+                if (int(u), int(w)) != named and (int(u), int(w)) in before["rawe"] and not _eq(_plain(g.edges[u, w].get("iou")), before["rawe"][(int(u), int(w))]):
                     self.v("C10", "`%s` changed the disabled iou of edge (%d,%d)" % (line, u, w), line)
         if kind == "update_attrs_protected":
             key = E.KEYNAME[int(line.split()[2].split("=")[0])]
